@@ -24,6 +24,7 @@ Fixed since: F_getGoFile (f3054bd: `getGoFile` is a package-scope look-up now; `
 a duplicate alias is a Fatal in every order; `C07_aliasDup_fixed`), F_msgOrder (376a366: the success message is sorted;
 `C07_msgOrder_fixed`).  Both are now part of `C07_order_indep`, which needs no condition on the alias map any more.
 Findings (the unchanged code violates the property; witness theorems below):
+  F_structTwice    – rest: a parameter struct declared in two files of the directory (build tags, external test package)
   F_embedderFirst  – `-getset`: a type processed before the shoot type it embeds: the second run differs from the first
   F_staleAllInOne  – `-file=` / `-type=*` with stale output: the stale all-in-one file is not shadowed by the overlay
 -/
@@ -136,6 +137,15 @@ theorem C07_aliasDup_fixed :
     shows a map order -/
 theorem C07_msgOrder_fixed :
     (run oId wInput).message = (run oRev wInput).message ∧ debugLine oId wInput ≠ debugLine oRev wInput := by decide
+
+/-- F_structTwice: `extractStructFields` re-parses the whole directory with `parser.ParseDir` (no build constraints,
+    every package clause) and appends the fields of EVERY struct of the requested name, ranging over the maps
+    `pkgs` and `pkg.Files`: with `type Req struct{Name; Size}` in t.go and another `Req` in a file excluded by a build
+    tag (or in the external test package) the query parameters of `M(ctx, req Req)` come out in two orders – and
+    contain fields the real `Req` does not have -/
+theorem C07_F_structTwice_witness :
+    gather [("alt.go", ["Other"]), ("t.go", ["Name", "Size"])] = ["Other", "Name", "Size"] ∧
+    gather [("t.go", ["Name", "Size"]), ("alt.go", ["Other"])] = ["Name", "Size", "Other"] := by decide
 
 /-! ## files on disk -/
 
